@@ -24,8 +24,9 @@ func TestWide(t *testing.T) {
 		found++
 		plan := Gen("C15", "quick", seed)
 		t0 := time.Now()
-		res := Execute(plan, nil, false)
+		res := Execute(plan, nil, os.Getenv("V") != "")
 		fmt.Printf("seed %d: %d events, %v, steps %d, nontrivial %v, probes %v\n", seed, len(plan.Events), time.Since(t0), res.Steps, res.Nontrivial, res.Probes)
+		fmt.Printf("digest seed %d: trace %x state %x\n", seed, res.TraceHash, res.StateHash)
 		if res.Violation != nil {
 			msg := fmt.Sprint(res.Violation)
 			if len(msg) > 600 {
@@ -34,4 +35,24 @@ func TestWide(t *testing.T) {
 			t.Errorf("seed %d: %s", seed, msg)
 		}
 	}
+}
+
+// TestWideLogSize: what a verbose wide run hands to the supervisor.
+func TestWideLogSize(t *testing.T) {
+	seed := uint64(160)
+	if v, err := strconv.ParseUint(os.Getenv("SEED"), 10, 64); err == nil {
+		seed = v
+	}
+	plan := Gen("C15", "quick", seed)
+	t0 := time.Now()
+	res := Execute(plan, nil, true)
+	fmt.Printf("verbose run of seed %d: %v, %d events\n", seed, time.Since(t0), len(plan.Events))
+	n, longest := 0, 0
+	for _, l := range res.Log {
+		n += len(l)
+		if len(l) > longest {
+			longest = len(l)
+		}
+	}
+	fmt.Printf("log lines %d, bytes %d, longest %d, states %d\n", len(res.Log), n, longest, len(res.States))
 }
